@@ -55,6 +55,7 @@ def gen_params(rng, stratum):
         "end_policy": "clean" if stratum == "A" else "free",
         "allow_shiftable": use_ref,
         "per_sample_bam": rng.random() < 0.3,
+        "rg_id_reuse": rng.random() < 0.5,  # (with per-sample files) every file calls its read group "1"
         "split_bams": rng.choice([0, 0, 2, 3]),
         "vcf_compress": rng.random() < 0.2,
         "qual_mode": rng.choice(["const", "random"]),
